@@ -40,11 +40,19 @@ func init() {
 	histJudges["C03"] = func(cfg histCfg, o *histObs) []finding { return c03Judge(cfg, o, nil) }
 	// every library command usable in a session, with request values giving
 	// different body lengths
+	rawLens := []int{}
 	for l := 0; l <= 48; l++ {
+		rawLens = append(rawLens, l)
+	}
+	// long request bodies: the serialise buffer has to grow while the
+	// confidentiality layer is being added
+	rawLens = append(rawLens, 58, 59, 60, 64, 80, 100, 150, 200)
+	for _, l := range rawLens {
+		l := l
 		body := pattern(l, byte(l), 7)
-		c03Ops = append(c03Ops, addOp(histOp{Name: fmt.Sprintf("Raw(len=%d)", l), NetFn: 0x30, Cmd: byte(0x40 + l), Data: body,
+		c03Ops = append(c03Ops, addOp(histOp{Name: fmt.Sprintf("Raw(len=%d)", l), NetFn: 0x30, Cmd: byte(0x20 + l%200), Data: body,
 			New: func() ipmi.Command {
-				return &rawCmd{op: ipmi.Operation{Function: 0x30, Command: ipmi.CommandNumber(0x40 + l)}, body: body}
+				return &rawCmd{op: ipmi.Operation{Function: 0x30, Command: ipmi.CommandNumber(0x20 + l%200)}, body: body}
 			}}))
 	}
 	c03Ops = append(c03Ops, opGetDeviceID, opChassisControl, opGetSDR, opSetPriv, opPowerReading, opChassisStatus, opSensorReading, opSystemGUID, opSessionInfo, opAuthCaps)
@@ -147,7 +155,7 @@ func runC03(r *rep.R) {
 		}
 		// histories of 3 commands with retransmissions (IV reuse, sequence, residue)
 		if si%4 == 0 || thorough(r) {
-			sub := []int{opGetDeviceID, opGetSDR, opPowerReading, c03Ops[16]}
+			sub := []int{opGetDeviceID, opGetSDR, opPowerReading, c03Ops[53]}
 			for _, a := range sub {
 				for _, b := range sub {
 					for _, c := range sub {
